@@ -116,7 +116,7 @@ static ToolRun make_run(uint64_t seed, uint64_t run, bool fault_cfg) {
     case 1: keyhex.clear(); T.why_invalid = "missing key"; break;
     case 2: { unsigned bad = r.chance(1, 2) ? r.range(1, bs - 1) : maxk + 1 + r.below(48 - maxk + 1 > 0 ? 48 - maxk + 1 : 1); if (bad > 48) bad = bs - 1; T.key = r.bytes(bad); keyhex = spell_hex(r, T.key); T.why_invalid = strf("key of %u bytes for block size %u (legal: %u..%u)", bad, bs * 8, bs, maxk); if (bad >= bs && bad <= maxk) invalid = 0; break; }
     case 3: if (T.tool != 2) { unsigned bad = bs + 1 + r.below(16 - bs + 4); Bytes c = r.bytes(bad); ctrhex = spell_hex(r, c); T.have_ctr = true; T.why_invalid = strf("counter/tweak of %u bytes for block size %u", bad, bs * 8); } else { give_b = true; bopt = "32"; T.why_invalid = "bad -b"; } break;
-    case 4: give_b = true; bopt = r.chance(1, 2) ? "32" : (r.chance(1, 2) ? "256" : "x"); T.why_invalid = "bad -b value"; break;
+    case 4: { static const char *bad[] = {"32", "256", "x", "65", "71", "129", "135", "64bit", "128x", "0", "63", "127", "064", " 64", "1280", "8", "16"}; give_b = true; bopt = bad[r.below(17)]; T.why_invalid = "bad -b value"; break; }
     case 5: keyhex[r.below((uint32_t)keyhex.size())] = r.chance(1, 2) ? 'g' : '/'; T.why_invalid = "bad hex digit in key"; break;
     case 6: T.why_invalid = "unknown option"; break;
     case 7: T.why_invalid = "missing file names"; break;
